@@ -87,7 +87,7 @@ EXTRA = {
  "C16": "Files whose data section is a whole multiple of 512 B..128 KiB; damaged files under names ending .npy/.sfs/.txt/.bin/none; `-O npy`, `-O text`, `-o FILE` variants (the -o file must not hold a spectrum either); extensions by the beginning or the whole of a second npy file; on stdin also in two writes split where the valid file ends. Valid files with a header padded to 16 only whose data begin with 0..20 blank bytes (what header padding is made of), under every truncation and extension.",
  "C17": "Every tuple of <= 3 declared axis lengths over {0,1,2,3,2^32,2^63,2^64-1} (text) and {0,1,2,2^32,2^64-1} (npy); npy shape () with 0/1/3 values; 5 000..40 000 axes of length 1; every statistic family on them; 20..70 one-sample populations; hostile IDX attributes in BCF headers; reserved bit patterns in FORMAT fields; (thorough) 150 000 axes; every order of the pieces of a text header; shapes sweeping every residue of the npy header length. Valid small spectra of every shape over lengths {1,2,3,9} (9/1, 1/9, 3/3/1, ...) through every command and statistic.",
  "C18": "Each fault once persistent and once transient (a single failing call, later calls succeed), call-set faults also with error kinds UnexpectedEof and BrokenPipe and at every BCF record start and BGZF block start; EPIPE and ENOSPC on the binary's stdout, and a file-size limit that makes a write fail in the middle or in the last block of the output. First-chunk lengths again with format and/or compression named by the caller (set_format, set_compression_method).",
- "C19": "Arrays of 1 025..8 193 elements; all 220 shapes with a zero-length axis among <= 4 axes of length 0..3; iterators over axes that do not exist; sums on signed fills (all negative, mixed with zeros, sign by position).",
+ "C19": "Arrays of 1 025..8 193 elements; all 220 shapes with a zero-length axis among <= 4 axes of length 0..3; iterators over axes that do not exist; sums on signed fills (all negative, mixed with zeros, sign by position). The other constructors (from_iter, from_element, from_zeros), as_mut_slice and index_axis agree with new / get / get_axis.",
 }
 
 NOT_YET = {}
